@@ -43,11 +43,15 @@ func damageCS(m []byte) []byte {
 	return b
 }
 
-func damageLen(m []byte) []byte {
-	// change the declared BodyLength, re-solve the checksum so that only the length is wrong
+func damageLen(m []byte, d int) []byte {
+	// change the declared BodyLength by d (overstated or understated), re-solve the checksum so
+	// that only the length is wrong
 	segs := bytes.Split(m, []byte{1})
 	n, _ := strconv.Atoi(string(segs[1][2:]))
-	segs[1] = []byte("9=" + strconv.Itoa(n+1))
+	if n+d < 0 {
+		d = 1
+	}
+	segs[1] = []byte("9=" + strconv.Itoa(n+d))
 	pre := bytes.Join(segs[:len(segs)-2], []byte{1})
 	sum := 1
 	for _, c := range pre {
@@ -164,7 +168,7 @@ func (g *gstate) logon(kind string) Op {
 		op.Data = damageCS(m)
 		op.Label = "logon-damaged"
 	case "damaged-len":
-		op.Data = damageLen(m)
+		op.Data = damageLen(m, []int{1, -1, 2, -2, -7, 9, -1, 1}[g.r.Intn(8)])
 		op.Label = "logon-damaged"
 	case "nonnumeric-hb":
 		sf2 := sf
@@ -197,7 +201,7 @@ func (g *gstate) admin(mt string, body string, base string) Op {
 		op.Data = damageCS(m)
 		op.Label = base + "-damaged"
 	case 3:
-		op.Data = damageLen(m)
+		op.Data = damageLen(m, []int{1, -1, 2, -2, -7, 9, -1, 1}[g.r.Intn(8)])
 		op.Label = base + "-damaged"
 	}
 	return op
